@@ -242,6 +242,39 @@ def g2_retry(F, R):
             det = 'order=%s compares-two-distinct-generation-reads-on-equal-edge=%s returns-closure-result=%s' % (order, good_cmp, ret_is_closure)
     R.check(ok, 'G2', 'retry-loop', where, 'generation, closure, generation; return only if the two reads are equal, else retry',
             'read_consistent does not implement the generation retry protocol: %s (returning paths %d, retry paths %d)' % (det, len(rets), len(loops)))
+    # bracket on every iteration (also after a retry): the value returned is produced by a closure call that lies between
+    # the two generation reads that are compared
+    S = sg.sym
+    gens = [n.id for n in sg.calls(lambda d: d.get('method') == 'read_config_generation')]
+    clos = [n.id for n in sg.calls(lambda d: d.get('trait') in ('core::ops::Fn', 'core::ops::FnMut', 'core::ops::FnOnce'))]
+    cmps = []
+    for n in sg.nodes:
+        if n.kind == 'assign' and n.d['rv']['rv'] == 'bin':
+            t = S.rvalue(n.id, n.d['rv'])
+            if t[1] in ('Eq', 'Ne'):
+                xs = set(x[1] for x in subterms(t[2]) if x[0] == 'call' and x[1] in gens)
+                ys = set(x[1] for x in subterms(t[3]) if x[0] == 'call' and x[1] in gens)
+                if xs and ys:
+                    cmps.append((n.id, xs, ys))
+    good = bool(cmps) and bool(clos)
+    why = 'no comparison of two generation reads' if not cmps else ''
+    for cid, xs, ys in cmps:
+        def oriented(db, da):
+            if db & da:
+                return 'the same generation read feeds both sides of the comparison'
+            for b_ in db:
+                if not sg.between_always(b_, cid, clos):
+                    return 'the "before" generation read at %s can reach the comparison without the closure running in between' % site(sg, sg.nodes[b_])
+            for c_ in clos:
+                if cid in sg.reach_fwd(sg.nodes[c_].succ) and not sg.between_always(c_, cid, da):
+                    return 'the closure call at %s can reach the comparison without a later generation read' % site(sg, sg.nodes[c_])
+            return None
+        w1, w2 = oriented(xs, ys), oriented(ys, xs)
+        if w1 is not None and w2 is not None:
+            good = False
+            why = w1
+    R.check(good, 'G2', 'retry-loop:bracket', where, 'on every iteration the closure runs between the two compared generation reads (%d reads, %d closure calls)' % (len(gens), len(clos)),
+            'read_consistent can return a value that was not bracketed by the two generation reads it compares: %s - a configuration change during that read goes unnoticed (torn value)' % why)
 
 
 def g3_wrapped(F, R):
